@@ -223,6 +223,198 @@ theorem dedupKeys_nodup (ks : List Nat) : (dedupKeys ks).Nodup := by
       and_false, not_false_eq_true, true_and]
     exact (filter_sublist).nodup ih
 
+/-! ### `dict.update` with several keys -/
+
+theorem assoc_replace_other {d : List (Nat × Nat)} {key new : Nat} {e : Nat × Nat} (hne : e.1 ≠ key) :
+    e ∈ d.map (fun e => if e.1 = key then (key, new) else e) ↔ e ∈ d := by
+  simp only [mem_map]
+  constructor
+  · rintro ⟨e', he', rfl⟩
+    by_cases h : e'.1 = key
+    · simp [h] at hne
+    · simpa [h] using he'
+  · intro he; exact ⟨e, he, by simp [hne]⟩
+
+@[simp] theorem scUnregs_changed (ch : List (Nat × Nat)) :
+    scUnregs (ch.flatMap (fun c => [Act.unreg c.1, Act.reg c.2])) = ch.map (·.1) := by
+  induction ch with
+  | nil => rfl
+  | cons c ch ih => simp [scUnregs, ih]
+
+@[simp] theorem scRegs_changed (ch : List (Nat × Nat)) :
+    scRegs (ch.flatMap (fun c => [Act.unreg c.1, Act.reg c.2])) = ch.map (·.2) := by
+  induction ch with
+  | nil => rfl
+  | cons c ch ih => simp [scRegs, ih]
+
+theorem dictUpd_spec : ∀ (kvs d : List (Nat × Nat)),
+    (d.map (·.1)).Nodup → (d.map (·.2)).Nodup → (kvs.map (·.1)).Nodup → (kvs.map (·.2)).Nodup →
+    (∀ v ∈ kvs.map (·.2), v ∉ d.map (·.2)) →
+    ((dictUpd d kvs).1.map (·.1)).Nodup ∧ ((dictUpd d kvs).1.map (·.2)).Nodup ∧
+    (∀ c, c ∈ (dictUpd d kvs).1.map (·.2) ↔
+      (c ∈ d.map (·.2) ∧ c ∉ (dictUpd d kvs).2.2.map (·.1)) ∨ c ∈ (dictUpd d kvs).2.1 ∨
+        c ∈ (dictUpd d kvs).2.2.map (·.2)) ∧
+    (∀ c ∈ (dictUpd d kvs).2.2.map (·.1), ∃ key ∈ kvs.map (·.1), (key, c) ∈ d) ∧
+    ((dictUpd d kvs).2.2.map (·.1)).Nodup ∧
+    (∀ c, (c ∈ (dictUpd d kvs).2.1 ∨ c ∈ (dictUpd d kvs).2.2.map (·.2)) ↔ c ∈ kvs.map (·.2)) ∧
+    ((dictUpd d kvs).2.1 ++ (dictUpd d kvs).2.2.map (·.2)).Nodup := by
+  intro kvs
+  induction kvs with
+  | nil => intro d hk hv _ _ _; simp [dictUpd, hk, hv]
+  | cons kv kvs ih =>
+    obtain ⟨k, v⟩ := kv
+    intro d hk hv hkk hvv hfresh
+    simp only [map_cons, nodup_cons] at hkk hvv
+    have hvd : v ∉ d.map (·.2) := hfresh v (by simp)
+    have hfresh' : ∀ v' ∈ kvs.map (·.2), v' ∉ d.map (·.2) := fun v' hv' => hfresh v' (by simp [hv'])
+    cases hf : d.find? (·.1 = k) with
+    | some e =>
+      have hed : e ∈ d := mem_of_find?_eq_some hf
+      have hek : e.1 = k := by simpa using find?_some hf
+      have hmem : (k, e.2) ∈ d := by rw [← hek]; exact hed
+      obtain ⟨r1, r2, r3⟩ := assoc_replace hk hv hmem hvd
+      have hold : e.2 ∈ d.map (·.2) := mem_map.mpr ⟨_, hed, rfl⟩
+      obtain ⟨i1, i2, i3, i4, i5, i6, i7⟩ := ih (d.map (fun e => if e.1 = k then (k, v) else e))
+        (by rw [r1]; exact hk) r2 hkk.2 hvv.2 (by
+          intro v' hv' hin
+          rcases (r3 v').mp hin with ⟨h1, _⟩ | h1
+          · exact hfresh' v' hv' h1
+          · exact hvv.1 (h1 ▸ hv'))
+      have hstep : dictUpd d ((k, v) :: kvs) =
+          ((dictUpd (d.map (fun e => if e.1 = k then (k, v) else e)) kvs).1,
+           (dictUpd (d.map (fun e => if e.1 = k then (k, v) else e)) kvs).2.1,
+           (e.2, v) :: (dictUpd (d.map (fun e => if e.1 = k then (k, v) else e)) kvs).2.2) := by
+        simp [dictUpd, hf]
+      rw [hstep]
+      generalize dictUpd (d.map (fun e => if e.1 = k then (k, v) else e)) kvs = r at i1 i2 i3 i4 i5 i6 i7
+      have hvch : v ∉ r.2.2.map (·.1) := by
+        intro hin
+        obtain ⟨key, hkey, hkv⟩ := i4 v hin
+        have hne : key ≠ k := fun e' => hkk.1 (e' ▸ hkey)
+        have := (assoc_replace_other (e := (key, v)) hne).mp hkv
+        exact hvd (mem_map.mpr ⟨_, this, rfl⟩)
+      refine ⟨i1, i2, ?_, ?_, ?_, ?_, ?_⟩
+      · intro c
+        simp only [map_cons, mem_cons, not_or]
+        rw [i3, r3]
+        constructor
+        · rintro (⟨⟨h1, h2⟩ | rfl, h3⟩ | h4 | h5)
+          · exact Or.inl ⟨h1, h2, h3⟩
+          · exact Or.inr (Or.inr (Or.inl rfl))
+          · exact Or.inr (Or.inl h4)
+          · exact Or.inr (Or.inr (Or.inr h5))
+        · rintro (⟨h1, h2, h3⟩ | h4 | rfl | h5)
+          · exact Or.inl ⟨Or.inl ⟨h1, h2⟩, h3⟩
+          · exact Or.inr (Or.inl h4)
+          · exact Or.inl ⟨Or.inr rfl, hvch⟩
+          · exact Or.inr (Or.inr h5)
+      · intro c hc
+        simp only [map_cons, mem_cons] at hc ⊢
+        rcases hc with rfl | hc
+        · exact ⟨k, Or.inl rfl, hmem⟩
+        · obtain ⟨key, hkey, hkc⟩ := i4 c hc
+          have hne : key ≠ k := fun e' => hkk.1 (e' ▸ hkey)
+          exact ⟨key, Or.inr hkey, (assoc_replace_other (e := (key, c)) hne).mp hkc⟩
+      · simp only [map_cons, nodup_cons]
+        refine ⟨?_, i5⟩
+        intro hin
+        obtain ⟨key, _, hkc⟩ := i4 _ hin
+        have : e.2 ∈ (d.map (fun e => if e.1 = k then (k, v) else e)).map (·.2) :=
+          mem_map.mpr ⟨_, hkc, rfl⟩
+        rcases (r3 _).mp this with ⟨_, h2⟩ | h2
+        · exact h2 rfl
+        · exact hvd (h2 ▸ hold)
+      · intro c
+        simp only [map_cons, mem_cons]
+        rw [← i6]
+        constructor
+        · rintro (h1 | rfl | h3)
+          · exact Or.inr (Or.inl h1)
+          · exact Or.inl rfl
+          · exact Or.inr (Or.inr h3)
+        · rintro (rfl | h1 | h3)
+          · exact Or.inr (Or.inl rfl)
+          · exact Or.inl h1
+          · exact Or.inr (Or.inr h3)
+      · simp only [map_cons]
+        rw [perm_middle.nodup_iff, nodup_cons]
+        refine ⟨?_, i7⟩
+        intro hin
+        exact hvv.1 ((i6 v).mp (mem_append.mp hin))
+    | none =>
+      have hnone := find?_eq_none.mp hf
+      have hkd : k ∉ d.map (·.1) := by
+        intro hin
+        obtain ⟨e, he, rfl⟩ := mem_map.mp hin
+        exact hnone e he (by simp)
+      obtain ⟨i1, i2, i3, i4, i5, i6, i7⟩ := ih (d ++ [(k, v)])
+        (by
+          rw [map_append, nodup_append]
+          refine ⟨hk, by simp, ?_⟩
+          intro x hx y hy hxy
+          simp at hy; subst hy; subst hxy; exact hkd hx)
+        (by
+          rw [map_append, nodup_append]
+          refine ⟨hv, by simp, ?_⟩
+          intro x hx y hy hxy
+          simp at hy; subst hy; subst hxy; exact hvd hx)
+        hkk.2 hvv.2 (by
+          intro v' hv' hin
+          rw [map_append, mem_append] at hin
+          rcases hin with h1 | h1
+          · exact hfresh' v' hv' h1
+          · simp at h1; exact hvv.1 (h1 ▸ hv'))
+      have hstep : dictUpd d ((k, v) :: kvs) =
+          ((dictUpd (d ++ [(k, v)]) kvs).1, v :: (dictUpd (d ++ [(k, v)]) kvs).2.1,
+           (dictUpd (d ++ [(k, v)]) kvs).2.2) := by
+        simp [dictUpd, hf]
+      rw [hstep]
+      generalize dictUpd (d ++ [(k, v)]) kvs = r at i1 i2 i3 i4 i5 i6 i7
+      have hin_d : ∀ key c, key ∈ kvs.map (·.1) → (key, c) ∈ d ++ [(k, v)] → (key, c) ∈ d := by
+        intro key c hkey hkc
+        rcases mem_append.mp hkc with h1 | h1
+        · exact h1
+        · simp at h1
+          exact (hkk.1 (h1.1 ▸ hkey)).elim
+      have hvch : v ∉ r.2.2.map (·.1) := by
+        intro hin
+        obtain ⟨key, hkey, hkv⟩ := i4 v hin
+        exact hvd (mem_map.mpr ⟨_, hin_d key v hkey hkv, rfl⟩)
+      refine ⟨i1, i2, ?_, ?_, i5, ?_, ?_⟩
+      · intro c
+        rw [i3]
+        simp only [map_append, mem_append, map_cons, map_nil, mem_cons, not_mem_nil, or_false]
+        constructor
+        · rintro (⟨h1 | rfl, h3⟩ | h4 | h5)
+          · exact Or.inl ⟨h1, h3⟩
+          · exact Or.inr (Or.inl (Or.inl rfl))
+          · exact Or.inr (Or.inl (Or.inr h4))
+          · exact Or.inr (Or.inr h5)
+        · rintro (⟨h1, h3⟩ | (rfl | h4) | h5)
+          · exact Or.inl ⟨Or.inl h1, h3⟩
+          · exact Or.inl ⟨Or.inr rfl, hvch⟩
+          · exact Or.inr (Or.inl h4)
+          · exact Or.inr (Or.inr h5)
+      · intro c hc
+        obtain ⟨key, hkey, hkc⟩ := i4 c hc
+        exact ⟨key, by simp [hkey], hin_d key c hkey hkc⟩
+      · intro c
+        simp only [map_cons, mem_cons]
+        rw [← i6]
+        constructor
+        · rintro ((rfl | h1) | h3)
+          · exact Or.inl rfl
+          · exact Or.inr (Or.inl h1)
+          · exact Or.inr (Or.inr h3)
+        · rintro (rfl | h1 | h3)
+          · exact Or.inl (Or.inl rfl)
+          · exact Or.inl (Or.inr h1)
+          · exact Or.inr h3
+      · rw [cons_append, nodup_cons]
+        refine ⟨?_, i7⟩
+        intro hin
+        exact hvv.1 ((i6 v).mp (mem_append.mp hin))
+
 /-! ### slices -/
 
 theorem splice_facts {kids news : List Nat} {i j : Nat} (hnd : kids.Nodup) (hij : i ≤ j)
@@ -432,6 +624,49 @@ theorem mutate_spec {h : Heap} (ht : TreeShaped h) {op : Op} {m : Mut}
           simp at hy; subst hy; subst hxy
           obtain ⟨e, he, rfl⟩ := mem_map.mp hx
           exact hnone e he (by simp)
+    · cases hm
+  | dictUpdate o keys =>
+    simp only [mutate] at hm
+    split at hm
+    · rename_i ho
+      cases hm
+      have hlen : (dedupKeys keys).length = (freshIds h (dedupKeys keys).length).length := by
+        rw [freshIds_length]
+      have hkeys : map (·.1) ((dedupKeys keys).zip (freshIds h (dedupKeys keys).length)) = dedupKeys keys :=
+        map_fst_zip (by omega)
+      have hvals : map (·.2) ((dedupKeys keys).zip (freshIds h (dedupKeys keys).length)) =
+          freshIds h (dedupKeys keys).length := map_snd_zip (by omega)
+      obtain ⟨u1, u2, u3, u4, u5, u6, u7⟩ := dictUpd_spec
+        ((dedupKeys keys).zip (freshIds h (dedupKeys keys).length)) (h.obj o).byname
+        (ht.keys o) (ht.nodup o .byname) (by rw [hkeys]; exact dedupKeys_nodup _)
+        (by rw [hvals]; exact freshIds_nodup _ _)
+        (by
+          intro v hv hin
+          rw [hvals] at hv
+          have := ht.bound o .byname v hin
+          have := (mem_freshIds.mp hv).1
+          omega)
+      refine .change .byname (Or.inr ⟨rfl, rfl⟩) ?_ ?_
+      · simp only [scUnregs_append, scUnregs_regAll, scUnregs_changed, nil_append, scRegs_append,
+          scRegs_regAll, scRegs_changed]
+        refine Change.ofSet ht ho _ _ .byname _ _ ?_ ?_ ?_ ?_ u2 u5 u7 u1
+        · intro a' ha'; cases a' <;> first | exact absurd rfl ha' | rfl
+        · intro c
+          have := u3 c
+          simpa [Obj.targets, or_assoc] using this
+        · intro c hc
+          obtain ⟨key, _, hkc⟩ := u4 c hc
+          exact mem_map.mpr ⟨_, hkc, rfl⟩
+        · intro c hc
+          have := (u6 c).mp (mem_append.mp hc)
+          rw [hvals] at this
+          exact mem_freshIds.mp this
+      · intro hf
+        have hk : dedupKeys keys = [] := by
+          cases hd : dedupKeys keys with
+          | nil => rfl
+          | cons a l => simp [hd] at hf
+        simp [hk, dictUpd, regAll, scUnregs, scRegs]
     · cases hm
   | dictDel o key =>
     simp only [mutate] at hm
